@@ -4,12 +4,10 @@
    quantifier "each URR registered at most once at a time"); model/Perio.v (step, run, batches).
    [run evs] is the model state after the history [evs] (fold_left of step from the initial state), [spec_run evs]
    the spec state; ticks may occur anywhere in [evs] and the tick under consideration is the next event. *)
-From Coq Require Import List NArith Bool.
-From Coq Require String.
+From Coq Require Import String List NArith Bool.
 From GoUpf Require Import PerioGen PerioSpec Perio PerioProofs.
 Import ListNotations.
 Local Open Scope N_scope.
-Delimit Scope string_scope with string.
 
 (* Every tick of a period that has registrations issues exactly ONE query; the query map lists exactly the
    (seid,urr) pairs the spec holds for that period - nothing removed, nothing missing, nothing twice, no empty
